@@ -190,6 +190,33 @@ func c15Child(a *ChildArgs) {
 			a.Rec.Distinct("statements", gen.Plain(x.Toks))
 			c15Check(a, "C15/cat", catGroup(cc.ID), x, g.P, 7)
 		}
+		// statements outside the model grammar, with their placement written by hand
+		for _, fx := range []struct {
+			id, sql         string
+			tabs, cols, fns []string
+		}{
+			{"replace-into", "REPLACE INTO t2 ( a , b ) VALUES ( 1 , f ( c ) )", []string{"t2"}, []string{"a", "b", "c"}, []string{"f"}},
+			{"niladic-keywords", "SELECT CURRENT_DATE , CURRENT_TIMESTAMP , current_time , a FROM t WHERE b < LOCALTIMESTAMP", []string{"t"}, []string{"a", "b"}, nil},
+			{"match-against", "SELECT a FROM t WHERE MATCH ( b , c ) AGAINST ( 'x' IN BOOLEAN MODE )", []string{"t"}, []string{"a", "b", "c"}, []string{"MATCH"}},
+		} {
+			g := gen.New(rand.New(rand.NewSource(42)), nil)
+			var toks []gen.Tok
+			for _, w := range strings.Fields(fx.sql) {
+				toks = append(toks, gen.Tok{S: w})
+			}
+			for _, t := range fx.tabs {
+				g.P.Tables[t] = true
+			}
+			for _, c := range fx.cols {
+				g.P.Columns[c] = true
+				g.P.QColumns[c] = true
+			}
+			for _, f := range fx.fns {
+				g.P.Functions[f] = true
+			}
+			a.Rec.Distinct("statements", fx.sql)
+			c15Check(a, "C15/fixed", fx.id, gen.X{Toks: toks}, g.P, 7)
+		}
 	}
 }
 
